@@ -129,10 +129,10 @@ CLAIMS = {
  'C16': dict(
     text=("Decides: (R1) sibling agreement of the four two-strategy lookups: each is normalised to a term (set, threshold, chunk source/size <= 999, IN column, ORDER BY hashkey scan, sorted right side, left_key column = hashkey, keep BOTH only, same selected columns, same accumulator/item) and all fields must agree; "
           "(R2) the funnel de-duplicates the request once, probes loose only for keys not found in the index, skip_if_missing guards only MISSING yields, has_objects answers element-wise over the original list; "
-          "(R3) every paging loop (discovered by def-use: a SELECT whose WHERE mentions a local the loop updates): id > last (strict) as the only filter, ORDER BY id, LIMIT, last = id of the last row, start -1, stop on empty page, all rows consumed; (R4) detect_where_sorted guards (new <= last -> ValueError on both sides, left_key applied), chunk_iterator / merge_sorted shapes, IN batch <= 999. "
-          "Does NOT decide the correctness of detect_where_sorted's merge control logic for all pairs of sequences (value-level)."),
+          "(R3) every paging loop (discovered by def-use: a SELECT whose WHERE mentions a local the loop updates): id > last (strict) as the only filter, ORDER BY id, LIMIT, last = id of the last row, start -1, stop on empty page, all rows consumed; (R4) detect_where_sorted guards (new <= last -> ValueError on both sides, left_key applied), chunk_iterator / merge_sorted shapes, IN batch <= 999; (R5) the merge control logic of detect_where_sorted by abstract interpretation of its source over a finite domain (boolean locals; order of the two current elements <,=,>; next() = element | StopIteration), to a fixed point from the function entry: in every reachable abstract state one iteration yields exactly one element with the Location the order demands (never a stale element of an exhausted side), advances exactly the yielded side(s), and the loop ends only with both sides exhausted and nothing pending -- the inductive step of a min-first merge. "
+          "Does NOT decide SQLite's ORDER BY collation agreeing with Python's string order, nor the behaviour on unsorted input beyond the guards."),
     note="SQLITE_MAX_VARIABLE_NUMBER >= 999; SQLite and Python order hex keys identically.",
-    technique="sibling-term extraction and comparison over AST/SQL terms", ref="5/C16"),
+    technique="sibling-term extraction and comparison over AST/SQL terms + finite-domain abstract interpretation of the merge helper", ref="5/C16"),
 }
 
 PENDING_REASON = "check not built yet in this session (work in progress; DESIGN.md section 5 describes the planned static rules)"
